@@ -25,12 +25,15 @@ pub async fn on_semantic_token_handler(
     _: CancellationToken,
 ) -> Option<SemanticTokensResult> {
     let uri = params.text_document.uri;
+    // Lock order: workspace_manager before analysis (released before analysis is taken).
+    let client_id = context
+        .workspace_manager()
+        .read()
+        .await
+        .client_config
+        .client_id;
     let analysis = context.analysis().read().await;
     let file_id = analysis.get_file_id(&uri)?;
-
-    let workspace_manager = context.workspace_manager().read().await;
-    let client_id = workspace_manager.client_config.client_id;
-    let _ = workspace_manager;
 
     semantic_token(
         &analysis,
